@@ -19,6 +19,9 @@ class Gen:
         self.scopes = [[]]
         self.n = 0
         self.in_switch = 0
+        self.clause_scope = []   # depths (len(self.scopes)) that are switch clauses: all clauses of a switch share ONE scope in the language
+        self.hidden = set()      # names that may not be mentioned right now (the initialiser of their own shadowing declaration, the other clauses of its switch)
+        self.shadows = 0
 
     def pick(self, xs):
         return xs[self.rng.randrange(len(xs))]
@@ -26,8 +29,18 @@ class Gen:
     def chance(self, p):
         return self.rng.random() < p
 
+    def visible(self):
+        """name -> (type, kind, initialised): the innermost declaration wins"""
+        out = {}
+        for sc in self.scopes:
+            for (n, t, k, init) in sc:
+                out[n] = (t, k, init)
+        for n in self.hidden:
+            out.pop(n, None)
+        return out
+
     def locals_of(self, ty, assignable=False):
-        return [n for sc in self.scopes for (n, t, k, init) in sc if t == ty and init and (not assignable or k == "let")]
+        return [n for n, (t, k, init) in self.visible().items() if t == ty and init and (not assignable or k == "let")]
 
     def obj(self, d):
         r = self.rng.random()
@@ -146,37 +159,60 @@ class Gen:
             n = self.rng.randrange(1, 3)
             return ("expr", ("call", ("member", ("ident", "console"), self.pick(["log", "info", "warn", "error", "debug"])),
                              [self.typed(self.pick(["bool", "int", "uint", "string"]), d + 1) for _ in range(n)]))
-        ls = [n for sc in self.scopes for (n, tt, k, init) in sc if k == "let"]
+        ls = [n for n, (tt, k, init) in self.visible().items() if k == "let"]
         if ls:
             name = self.pick(ls)
-            tt = [t2 for sc in self.scopes for (n, t2, k, init) in sc if n == name][0]
+            tt = self.visible()[name][0]
             self.mark_init(name)
             return ("expr", ("assign", ("ident", name), self.typed(tt, d + 1) if tt in ("int", "uint") else self.expr(tt, d + 1)))
         return ("expr", ("call", ("member", ("ident", "a"), "act"), [("int", 1)]))
 
     def mark_init(self, name):
-        for sc in self.scopes:
-            for k, (n, t, kind, init) in enumerate(sc):
+        for sc in reversed(self.scopes):
+            for k, (n, t, kind, init) in reversed(list(enumerate(sc))):
                 if n == name:
                     sc[k] = (n, t, kind, True)
+                    return
+
+    def shadow_name(self):
+        """a visible name of an ENCLOSING scope to declare again (never one of the current scope: that is a redeclaration; never a handler parameter
+        at the top level of the function body, for the same reason)"""
+        here = {n for (n, t, k, init) in self.scopes[-1]}
+        outer = self.scopes[:-1]
+        if len(self.scopes) == 2:
+            outer = []
+        names = [n for sc in outer for (n, t, k, init) in sc if n not in here and n not in self.hidden]
+        return self.pick(names) if names else None
 
     def decl(self, d):
         t = self.pick(["bool", "int", "uint", "string", "vobj", "int"])
-        name = self.fresh()
+        name = self.shadow_name() if (self.chance(0.3) and not self.clause_scope[-1:] == [len(self.scopes)]) else None
+        if name is None:
+            name = self.fresh()
+            init = self.typed(t, d + 1) if t in ("int", "uint") else self.expr(t, d + 1)
+        else:
+            # `let x = <x>` reads the NEW x before its initialisation: the initialiser does not mention the name
+            self.shadows += 1
+            self.hidden.add(name)
+            init = self.typed(t, d + 1) if t in ("int", "uint") else self.expr(t, d + 1)
+            self.hidden.discard(name)
         kind = self.pick(["let", "const"])
         annotated = self.chance(0.5) or t == "uint"
-        init = self.typed(t, d + 1) if t in ("int", "uint") else self.expr(t, d + 1)
         st = ("decl", kind, [(name, ANNOT[t] if annotated else None, init)])
         self.scopes[-1].append((name, t, kind, True))
         return st
 
-    def block(self, d, ret_ty, n=None):
+    def block(self, d, ret_ty, n=None, clause=False):
         self.scopes.append([])
+        if clause:
+            self.clause_scope.append(len(self.scopes))
         out = []
         for _ in range(n if n is not None else self.rng.randrange(0, 3)):
             out.append(self.stmt(d, ret_ty))
         if ret_ty is not None:
             out.append(self.closing(d, ret_ty))
+        if clause:
+            self.clause_scope.pop()
         self.scopes.pop()
         return out
 
@@ -199,21 +235,36 @@ class Gen:
         self.in_switch += 1
         ncase = self.rng.randrange(0, 4)
         for k in range(ncase):
-            c = self.lit(t) if self.chance(0.7) else (self.typed(t, d + 2) if t in ("int", "uint") else self.expr(t, d + 2))
+            c = self.case_label(t, d)
             cases.append((c, self.clause(d, ret_ty, closing and False)))
         default = None
         if closing:
             # every path must return: the default and every clause end in return, no break anywhere inside
-            cases = [(c, self.block(d + 1, ret_ty)) for c, _ in cases]
-            default = (self.rng.randrange(0, ncase + 1), self.block(d + 1, ret_ty))
+            cases = [(c, self.block(d + 1, ret_ty, clause=True)) for c, _ in cases]
+            default = (self.rng.randrange(0, ncase + 1), self.block(d + 1, ret_ty, clause=True))
         elif self.chance(0.6):
             default = (self.rng.randrange(0, ncase + 1), self.clause(d, ret_ty, False))
         self.in_switch -= 1
         return ("switch", v, cases, default)
 
+    def case_label(self, t, d):
+        """mostly literals; one time in five a label that takes several basic blocks to compute (?: / && / ||)"""
+        r = self.rng.random()
+        if r < 0.6:
+            return self.lit(t)
+        if r < 0.8:
+            leafs = [self.lit(t), self.prop(t, self.max_depth)]
+            if t == "bool" and self.chance(0.5):
+                return ("binary", self.pick(["&&", "||"]), self.prop("bool", self.max_depth), self.prop("bool", self.max_depth))
+            return ("ternary", self.prop("bool", self.max_depth), self.pick(leafs), self.pick(leafs)) if t not in ("int", "uint") else \
+                ("ternary", self.prop("bool", self.max_depth), self.prop(t, self.max_depth), self.pick(leafs))
+        return self.typed(t, d + 2) if t in ("int", "uint") else self.expr(t, d + 2)
+
     def clause(self, d, ret_ty, closing):
         self.scopes.append([])
+        self.clause_scope.append(len(self.scopes))
         body = [self.stmt(d + 1, ret_ty) for _ in range(self.rng.randrange(0, 3))]
+        self.clause_scope.pop()
         r = self.rng.random()
         if r < 0.5:
             body.append(("break", False))
@@ -224,9 +275,59 @@ class Gen:
         self.scopes.pop()
         return body
 
+    def shadow_switch(self, d, ret_ty):
+        """{ [if (c) {] switch (e) { case k: let x = ...; <uses of the new x> [break]  <other clauses, not mentioning x> } [}]  <use of the OUTER x> }
+        -- a declaration in a switch clause is local to the switch: after it, and on the paths around it, `x` is the enclosing one"""
+        vis = self.visible()
+        names = [n for n, (t, k, init) in vis.items() if init]
+        if not names:
+            return None
+        same = [n for n in names if vis[n][0] == ret_ty]
+        name = self.pick(same) if same and not self.handler else self.pick(names)
+        t0 = vis[name][0]
+        tsw = self.pick(["int", "uint", "string", "bool"])
+        v = self.typed(tsw, d + 1) if tsw in ("int", "uint") else self.expr(tsw, d + 1)
+        self.shadows += 1
+        self.hidden.add(name)
+        t = self.pick(["bool", "int", "uint", "string", "vobj"])
+        init = self.typed(t, d + 1) if t in ("int", "uint") else self.expr(t, d + 1)
+        c0 = self.lit(tsw) if self.chance(0.7) else (self.typed(tsw, d + 2) if tsw in ("int", "uint") else self.expr(tsw, d + 2))
+        self.in_switch += 1
+        others = []
+        for _ in range(self.rng.randrange(0, 3)):
+            c = self.lit(tsw) if self.chance(0.7) else (self.typed(tsw, d + 2) if tsw in ("int", "uint") else self.expr(tsw, d + 2))
+            others.append((c, self.clause(d, None, False) if ret_ty is None else self.clause(d, ret_ty, False)))
+        default = None
+        if self.chance(0.5):
+            default = (self.rng.randrange(0, len(others) + 2), self.clause(d, ret_ty, False))
+        self.hidden.discard(name)
+        kind = self.pick(["let", "const"])
+        self.scopes.append([(name, t, kind, True)])
+        self.clause_scope.append(len(self.scopes))
+        first = [("decl", kind, [(name, ANNOT[t] if (t == "uint" or self.chance(0.5)) else None, init)])]
+        if self.handler:
+            first.append(("expr", ("call", ("member", ("ident", "console"), "log"), [("ident", name)] if t != "vobj" else [("binary", "==", ("ident", name), ("null",))])))
+        first += [self.stmt(d + 1, ret_ty) for _ in range(self.rng.randrange(0, 2))]
+        if self.chance(0.6):
+            first.append(("break", False))
+        self.clause_scope.pop()
+        self.scopes.pop()
+        self.in_switch -= 1
+        st = ("switch", v, [(c0, first)] + others, default)
+        if self.chance(0.5):
+            st = ("if", self.expr("bool", d + 1), ("block", [st]), None)
+        out = [st]
+        if self.handler:
+            out.append(("expr", ("call", ("member", ("ident", "console"), "log"), [("ident", name)] if t0 != "vobj" else [("binary", "==", ("ident", name), ("null",))])))
+            if t0 != "vobj" or True:
+                out.append(("expr", ("assign", ("member", ("ident", self.pick(["a", "b"])), PROP[t0]), ("ident", name))))
+        elif ret_ty == t0 and self.chance(0.8):
+            out.append(("return", ("ident", name)))
+        return ("block", out)
+
     def alias_block(self, d):
         """const c = v; v = ...; use of c and v -- a const initialised from a variable keeps the OLD value"""
-        cands = [(n, t) for sc in self.scopes for (n, t, k, init) in sc if k == "let" and init and t in ("int", "uint", "string", "bool")]
+        cands = [(n, t) for n, (t, k, init) in self.visible().items() if k == "let" and init and t in ("int", "uint", "string", "bool")]
         if not cands:
             return None
         v, t = self.pick(cands)
@@ -243,6 +344,10 @@ class Gen:
             ab = self.alias_block(d)
             if ab is not None:
                 return ab
+        if 0.08 <= r < 0.14 and d < self.max_depth:
+            ss = self.shadow_switch(d, ret_ty)
+            if ss is not None:
+                return ss
         if r < 0.3:
             return self.decl(d)
         if r < 0.45 and d < self.max_depth:
@@ -255,10 +360,10 @@ class Gen:
                 return self.effect(d)
             return ("if", self.expr("bool", d + 1), ("block", [("return", None)]), None)
         # bindings: statements without effect on the world
-        ls = [n for sc in self.scopes for (n, tt, k, init) in sc if k == "let"]
+        ls = [n for n, (tt, k, init) in self.visible().items() if k == "let"]
         if ls:
             name = self.pick(ls)
-            tt = [t2 for sc in self.scopes for (n, t2, k, init) in sc if n == name][0]
+            tt = self.visible()[name][0]
             return ("expr", ("assign", ("ident", name), self.typed(tt, d + 1) if tt in ("int", "uint") else self.expr(tt, d + 1)))
         return self.decl(d)
 
@@ -275,6 +380,18 @@ class Gen:
         if self.chance(0.45):
             e = self.typed(t, 0) if t in ("int", "uint") else self.expr(t, 0)
             return ("binding_expr", e), t
+        if self.chance(0.15):
+            # let x = ...; [if (c) {] switch (...) { case k: let x = ...; ... } [}] return x;
+            self.scopes.append([])
+            name = self.fresh()
+            init = self.typed(t, 1) if t in ("int", "uint") else self.expr(t, 1)
+            self.scopes[-1].append((name, t, "let", True))
+            out = [("decl", "let", [(name, ANNOT[t] if (t == "uint" or self.chance(0.5)) else None, init)])]
+            out += [self.stmt(0, t) for _ in range(self.rng.randrange(0, 2))]
+            out.append(self.shadow_switch(0, t))
+            out.append(("return", ("ident", name)) if self.chance(0.5) else self.closing(0, t))
+            self.scopes.pop()
+            return ("binding_block", out), t
         return ("binding_block", self.block(0, t, n=self.rng.randrange(0, 3))), t
 
     def handler_program(self):
